@@ -30,10 +30,14 @@ Op == /\ Is("Op") /\ l' = l + 1 /\ UNCHANGED <<n, stored, feats, target>>
 Shuffled == /\ Is("Shuffled") /\ l' = l + 1 /\ UNCHANGED <<n, stored, feats, target, flag, perm>>
             /\ flag[Ev.f + 1] = "shuffle"
             /\ Ev.out = [i \in DOMAIN Ev.samples |-> perm[Ev.f + 1][Ev.samples[i] + 1]]
-\* shuffled(f, samples) of a feature that is not shuffled: as many samples as given, all valid (nothing more is demanded)
+\* shuffled(f, samples) of a feature that is not shuffled: as many samples as given, all valid, and - the views being "the stored values
+\* permuted by the reported bijection" - the reported samples hold the values the views show (the identity is not demanded; a shuffle that
+\* was cancelled by drop / undrop / unshuffle must not be reported any more, seeded change C08f)
 Unshuffled == /\ Is("Unshuffled") /\ l' = l + 1 /\ UNCHANGED <<n, stored, feats, target, flag, perm>>
               /\ flag[Ev.f + 1] # "shuffle"
               /\ Len(Ev.out) = Len(Ev.samples) /\ \A i \in DOMAIN Ev.out : Ev.out[i] \in 0..(n - 1)
+              /\ flag[Ev.f + 1] = "none" =>
+                    \A i \in DOMAIN Ev.out : Raw(feats[Ev.f + 1], stored, Ev.out[i]) = Raw(feats[Ev.f + 1], stored, Ev.samples[i])
 \* all views for a list of samples (any order, repetitions): dense rows and per-feature values
 Views == /\ Is("Views") /\ l' = l + 1 /\ UNCHANGED <<n, stored, feats, target, flag, perm>>
          /\ \A i \in DOMAIN Ev.samples : Ev.samples[i] \in 0..(n - 1)
